@@ -42,6 +42,13 @@ def cases(seed, tier, broken=()):
     for i in range(max(6, n // 8)):
         out.append({"kind": "cross_positions", "cls": ["MCA", "CPCCA", "CCA"][i % 3], "mseed": int(rng.integers(0, 2**31)),
                     "rx": sorted(set(int(x) for x in rng.choice(16, size=2, replace=False))), "ry": sorted(set(int(x) for x in rng.choice(16, size=2, replace=False)))})
+    # list input whose items miss the SAME NUMBER of samples at DIFFERENT positions: for the concatenated matrix these are NaN blocks that
+    # are neither whole samples nor whole features -> refused, or treated as deleted from every item; never paired row by row
+    for i in range({"quick": 8, "thorough": 60, "search": 40}[tier]):
+        nt = int(rng.integers(12, 24))
+        r1, r2 = (int(x) for x in rng.choice(nt, size=2, replace=False))
+        out.append({"kind": "list_staggered", "cls": ["EOF", "ComplexEOF", "EOFRotator", "SparsePCA"][i % 4] if i % 2 else "EOF", "nt": nt, "ny": 3, "nx": 4,
+                    "mseed": int(rng.integers(0, 2**31)), "r1": r1, "r2": r2, "where": ["fit", "transform"][i % 2]})
     if tier == "thorough":
         for nt, p in ((4, 3), (3, 4), (4, 4)):
             for r in range(0, nt - 1):
@@ -369,5 +376,62 @@ def run_cross_positions(case):
     return {"findings": F, "info": {"oracle_checks": {"n": 1}, "dist": {"kind": "cross_positions", "outcome": "accepted"}}}
 
 
+def run_list_staggered(case):
+    F = []
+    cls = case["cls"]
+    X, _ = base_fields(case, cls)
+    r1, r2 = case["r1"], case["r2"]
+    B0 = (X * 0.5 + 1.0).isel(lon=slice(0, 2))
+    A, B = mask_field(X, [r1], []), mask_field(B0, [r2], [])
+    keep = [t for t in range(case["nt"]) if t not in (r1, r2)]
+    cfg = cfg_for(cls, 2)
+    rot = {"n_modes": 2, "power": 1} if "Rotator" in cls else None
+    cc = f"{cls}|LIST|{case['where']}"
+    out = "refused"
+    try:
+        if case["where"] == "fit":
+            try:
+                m1, _ = zoo.fit(cls, [A, B], "time", cfg, rot_cfg=rot)
+            except Exception:  # noqa: BLE001  refusal is one of the two allowed outcomes
+                return {"findings": F, "info": {"dist": {"outcome": "refused"}}}
+            out = "accepted"
+            m2, _ = zoo.fit(cls, [X.isel(time=keep), B0.isel(time=keep)], "time", cfg, rot_cfg=rot)
+            e = relerr(np.asarray(m1.explained_variance().values), np.asarray(m2.explained_variance().values))
+            if not (e <= 1e-8):
+                F.append(Finding("oracle", "list_items_missing_different_samples", cc, f"items miss samples {r1} / {r2}: the fit was accepted but its spectrum differs from the fit with both samples deleted by rel {e:.2e}"))
+            s1 = zoo.scores(cls, m1)[0].transpose("mode", "time")
+            tl = list(s1.time.values)
+            vals = np.asarray(s1.values)
+            for t in (r1, r2):
+                if t in tl and not np.isnan(vals[:, tl.index(t)]).all():
+                    F.append(Finding("oracle", "list_items_missing_different_samples", cc + "|scores", f"scores at sample {t} (missing in one item) are numbers"))
+                    break
+        else:
+            m, _ = zoo.fit(cls, [X, B0], "time", cfg, rot_cfg=rot)
+            ref = zoo.transform(cls, m, [X, B0])[0].transpose("mode", "time")
+            try:
+                got = zoo.transform(cls, m, [A, B])[0].transpose("mode", "time")
+            except Exception:  # noqa: BLE001
+                return {"findings": F, "info": {"dist": {"outcome": "refused"}}}
+            out = "accepted"
+            tl = list(got.time.values)
+            gv, rv = np.asarray(got.values), np.asarray(ref.values)
+            bad = [t for t in (r1, r2) if t in tl and not np.isnan(gv[:, tl.index(t)]).all()]
+            if bad:
+                F.append(Finding("oracle", "list_items_missing_different_samples", cc + "|scores", f"transform: scores at samples {bad} (missing in one item) are numbers"))
+            rl = list(ref.time.values)
+            pos = [(tl.index(t), rl.index(t)) for t in keep if t in tl]
+            if len(pos) != len(keep):
+                F.append(Finding("oracle", "list_items_missing_different_samples", cc + "|labels", f"transform: {len(keep) - len(pos)} valid samples are missing from the answer"))
+            elif pos:
+                e = relerr(gv[:, [a for a, _ in pos]], rv[:, [b for _, b in pos]])
+                if not (e <= 1e-8):
+                    F.append(Finding("oracle", "list_items_missing_different_samples", cc + "|values", f"transform: scores of the valid samples differ from those of the complete data by rel {e:.2e} (items miss samples {r1} / {r2})"))
+    except RuntimeError as e:
+        if "did not converge" not in str(e):
+            raise
+    return {"findings": F, "info": {"oracle_checks": {"n": 1}, "dist": {"outcome": out, "where": case["where"]}}}
+
+
 def run(case):
-    return {"deleted": run_deleted, "isolated": run_isolated, "mask_mismatch": run_mask_mismatch, "cross_positions": run_cross_positions}[case["kind"]](case)
+    return {"list_staggered": run_list_staggered, "deleted": run_deleted, "isolated": run_isolated, "mask_mismatch": run_mask_mismatch, "cross_positions": run_cross_positions}[case["kind"]](case)
